@@ -109,3 +109,9 @@ package common
 //@   ensures bound: err == nil ==> called(Decode) && callarg(Decode, 0) == data && callres(Decode, 1) == nil &&
 //@       len(raw) >= minRawLength && expectedBodyHash == H256(hashcat(raw, minRawLength))
 //@   loop 0 invariant i >= 1 && i <= minRawLength && minRawLength <= len(raw) && seq(bodyHashes) == hashcat(raw, i)
+
+// C07 (arithmetic kernel): the offset extractors step over container headers with this function.
+//@ func cborArrayHeaderSize(length) (r)
+//@   props C07
+//@   pure
+//@   ensures minimal: length >= 0 && length < 4294967296 ==> r == cbor.minHdrLen(length)
